@@ -33,7 +33,7 @@ abbrev Descending (l : List Ev) : Prop := l.Pairwise (fun x y => y.ts ≤ x.ts)
 theorem facts :
     Generated.C04.limitCheckOp = "==" ∧ Generated.C04.getEarliestOp = "<=" ∧
     Generated.C04.testFuncNegatesBackward = true ∧ Generated.C04.newCursorUsesGetEarliest = true ∧
-    1 ≤ Generated.C04.mergeLimit := by decide
+    1 ≤ Generated.C04.mergeLimit ∧ Generated.C04.newCursorSortsSources = true := by decide
 
 /-! ## the pure merge -/
 
@@ -198,6 +198,39 @@ theorem multi_read_backward (t : It σ) (h : t.WF) (rel : Nat → Bool × Bool) 
   have := R.2.2.1 (by intro s h; simpa only [ord_false, ord_true] using hs s h)
   simpa only [ord_false, ord_true] using this
 
+/-- **the read after a direction switch, in terms of the sources before the switch**: a tree in any reachable state running
+in direction `¬bk`, switched to `bk` and read (with `Release` calls anywhere): a permutation of what its sources, each switched
+to `bk`, deliver alone; each source's order kept; in time order of direction `bk` when every switched source is. -/
+theorem read_after_switch (bk : Bool) (t : It σ) (h : t.WF) (hd : t.dir ≠ bk) (rel : Nat → Bool × Bool) (f : Nat)
+    (hf : (t.setBackward bk).view.length < f) :
+    let sw := fun s => view (Source.setBackward bk s)
+    let read := (t.setBackward bk).drainRel rel f 0
+    read.Perm (t.leaves.flatMap sw) ∧
+    (∀ s ∈ t.leaves, (sw s).Sublist read) ∧
+    ((∀ s ∈ t.leaves, (sw s).Pairwise (ord bk)) → read.Pairwise (ord bk)) ∧
+    (∀ e ∈ read, ∃ s ∈ t.leaves, e ∈ sw s) := by
+  intro sw read
+  obtain ⟨tw, td⟩ := It.setBackward_spec bk t h
+  have R := read_any_state (t.setBackward bk) tw rel f hf
+  have hv := It.setBackward_leaves_views bk t h hd
+  simp only [td] at R
+  obtain ⟨r1, r2, r3, r4⟩ := R
+  have tr : ∀ P : List Ev → Prop, (∀ s ∈ (t.setBackward bk).leaves, P (view s)) ↔ (∀ s ∈ t.leaves, P (sw s)) := by
+    intro P
+    have e1 : (∀ s ∈ (t.setBackward bk).leaves, P (view s)) ↔ ∀ v ∈ (t.setBackward bk).leaves.map view, P v := by
+      simp [List.mem_map]
+    have e2 : (∀ s ∈ t.leaves, P (sw s)) ↔ ∀ v ∈ t.leaves.map sw, P v := by simp [List.mem_map]
+    rw [e1, e2, hv]
+  have fm : (t.setBackward bk).leaves.flatMap view = t.leaves.flatMap sw := by
+    rw [List.flatMap_def, List.flatMap_def, hv]
+  refine ⟨fm ▸ r1, (tr (fun v => v.Sublist read)).mp r2, ?_, ?_⟩
+  · intro hs
+    exact r3 ((tr (fun v => v.Pairwise (ord bk))).mpr hs)
+  · intro e he
+    have := r1.mem_iff.mp he
+    rw [fm] at this
+    simpa [List.mem_flatMap] using this
+
 /-- the in-memory leaf reports every event under its own tag line (with `multi_read`: every event of a merged read
 carries the tag line of the partition it is stored in) -/
 theorem leaf_attribution (l : Leaf) (e : Ev) (h : e ∈ view l) : e.tags = l.tags := by
@@ -211,6 +244,68 @@ example : ∃ srcs : List Leaf, srcs ≠ [] ∧ srcs.length = 3 ∧ (∀ s ∈ s
     by simp [LawfulSource.wf, LawfulSource.dir, Leaf.wf],
     by simp [LawfulSource.view, Leaf.view, Leaf.ev]⟩
 
+/-! ## the order of the sources is the tag-line order (repair of finding #23) -/
+
+/-- the iterator `newCursor` builds **as the code is now** (with the regenerated fact whether it sorts the tag lines) for a map
+`srcs` that Go happens to iterate in `mapOrder` -/
+def cursorTree [Inhabited σ] (mapOrder : List (Bytes × σ)) : Option (It σ) :=
+  buildFromMap Generated.C04.newCursorSortsSources mapOrder
+
+/-- **two cursor incarnations over the same partition set build the same tree**: whatever two orders Go's map iteration
+produces (`o1`, `o2`: permutations of one another, keys distinct as map keys are), the tree — shape, leaf order, everything —
+is the same, hence so is every answer of every operation sequence, in particular the order among equal timestamps of
+different partitions. -/
+theorem merged_order_deterministic [Inhabited σ] (o1 o2 : List (Bytes × σ)) (hp : o1.Perm o2)
+    (hn : (o1.map (·.1)).Nodup) : cursorTree o1 = cursorTree o2 := by
+  have hf : Generated.C04.newCursorSortsSources = true := facts.2.2.2.2.2
+  unfold cursorTree buildFromMap sourceOrder
+  rw [hf]
+  simp only [if_true]
+  rw [sortLines_order_independent o1 o2 hp hn]
+
+/-- … and the priority is the tag-line order: the leaves of the tree, left to right, are the sources in ascending Go string
+order of their tag lines (each exactly once) -/
+theorem source_priority_is_tag_line_order [Inhabited σ] (mapOrder : List (Bytes × σ)) (hne : mapOrder ≠ []) :
+    ∃ (t : It σ) (sorted : List (Bytes × σ)), cursorTree mapOrder = some t ∧ t.leaves = sorted.map (·.2) ∧ sorted.Perm mapOrder ∧
+      sorted.Pairwise (fun a b => Go.bytesLe a.1 b.1 = true) := by
+  have hf : Generated.C04.newCursorSortsSources = true := facts.2.2.2.2.2
+  have hne' : (sortLines mapOrder).map (·.2) ≠ [] := by
+    intro h
+    have := (sortLines_perm mapOrder).length_eq
+    have h0 : ((sortLines mapOrder).map (·.2)).length = 0 := by rw [h]; rfl
+    rw [List.length_map] at h0
+    cases mapOrder with
+    | nil => exact hne rfl
+    | cons x xs => simp at this; omega
+  obtain ⟨t, h1, h2⟩ := build_leaves _ hne'
+  refine ⟨t, sortLines mapOrder, ?_, h2, sortLines_perm _, sortLines_sorted _⟩
+  unfold cursorTree buildFromMap sourceOrder
+  rw [hf]; exact h1
+
+/-- how ties are broken: among equal timestamps the left source (the smaller tag line) goes first forward, the right one
+(the greater tag line) first backward — one total order `(ts, tag-line rank, stored position)` walked in both directions -/
+theorem tie_priority (x y : Ev) (xs ys : List Ev) (h : x.ts = y.ts) :
+    mergeSpec false (x :: xs) (y :: ys) = x :: mergeSpec false xs (y :: ys) ∧
+    mergeSpec true (x :: xs) (y :: ys) = y :: mergeSpec true (x :: xs) ys := by
+  constructor <;> rw [mergeSpec_cons_cons] <;> simp [pick, h]
+
+/-- the same map in two iteration orders; the *old* code (no sorting: `buildFromMap false`) built two different trees, with the
+tie between the two partitions broken differently — what finding #23 was -/
+theorem cex_unsorted_order_dependent :
+    let a : Leaf := ⟨1, [⟨5, 0⟩], 0, false⟩
+    let b : Leaf := ⟨2, [⟨5, 0⟩], 0, false⟩
+    (buildFromMap false [([97], a), ([98], b)]).map It.view = some [⟨5, 0, 1⟩, ⟨5, 0, 2⟩] ∧
+    (buildFromMap false [([98], b), ([97], a)]).map It.view = some [⟨5, 0, 2⟩, ⟨5, 0, 1⟩] ∧
+    (cursorTree [([98], b), ([97], a)]).map It.view = some [⟨5, 0, 1⟩, ⟨5, 0, 2⟩] := by
+  simp [cursorTree, buildFromMap, sourceOrder, sortLines, insertLine, Go.bytesLe, Go.bytesLt, build, reduce, round,
+    pairLoop, It.init, It.view, LawfulSource.view, Leaf.view, Leaf.ev, mergeSpec, pick, Generated.C04.newCursorSortsSources]
+
+-- non-vacuity: three map entries in two different iteration orders
+example : ([([98], (0 : Nat)), ([97], 1), ([99], 2)] : List (Bytes × Nat)).Perm [([99], 2), ([98], 0), ([97], 1)] ∧
+    (([([98], (0 : Nat)), ([97], 1), ([99], 2)] : List (Bytes × Nat)).map (·.1)).Nodup := by
+  refine ⟨?_, by decide⟩
+  exact List.perm_iff_count.mpr (by intro x; simp only [List.count_cons, List.count_nil]; omega)
+
 /-! ## the merge limit -/
 
 /-- **too many matching partitions: the query fails and nothing stays acquired.** `GetJournals` with the limit
@@ -220,7 +315,7 @@ hands back the reader counts exactly as it found them. -/
 theorem limit_fails (matching : List Part) (rd : Readers) (hnd : (matching.map (·.line)).Nodup)
     (hlim : Generated.C04.mergeLimit ≤ matching.length) :
     getJournals Generated.C04.mergeLimit matching rd = (rd, none) :=
-  getJournals_limit_fails _ matching rd facts.2.2.2.2 hnd hlim
+  getJournals_limit_fails _ matching rd facts.2.2.2.2.1 hnd hlim
 
 /-- below the limit every matching partition is acquired exactly once and returned: no silent subset -/
 theorem under_limit_all (matching : List Part) (rd : Readers) (hnd : (matching.map (·.line)).Nodup)
